@@ -180,6 +180,9 @@ func c09ReadOpen(resp bool, chunks [][]byte) (v c09Verdict, waited bool) {
 	conn.AtEnd = vnet.ErrBlock
 	br := bufio.NewReaderSize(conn, 4096)
 	v = c09Parse(resp, br)
+	if v.accept {
+		v.consumed = conn.Consumed() - br.Buffered()
+	}
 	return v, conn.ReadsAfterEnd > 0
 }
 
@@ -249,6 +252,11 @@ func c09CheckHead(r *vrt.R, h *c09Head, st *c09Stats) {
 		r.ToolError("generated head is not complete under the line rule: %s", vrt.Q(H))
 	}
 	art := map[string]any{"resp": h.resp, "head": vrt.Q(H), "bodyless": h.bodyless}
+	failed := false
+	viol := func(sig, what string) {
+		failed = true
+		r.Violation(sig, what, art)
+	}
 	st.heads++
 	anyLF := false
 	for _, e := range h.ends {
@@ -281,7 +289,7 @@ func c09CheckHead(r *vrt.R, h *c09Head, st *c09Stats) {
 		case v.consumed != base.consumed && v.fields == base.fields:
 			kind = "consumed-length-depends-on-continuation"
 		}
-		r.Violation(h.shape()+":"+kind, fmt.Sprintf("Header.Read(%s + nothing) -> %s%s, but followed by %s -> %s%s", vrt.Q(H), base.key(), c09Err(base), c09ContNames[i+1], v.key(), c09Err(v)), art)
+		viol(h.shape()+":"+kind, fmt.Sprintf("Header.Read(%s + nothing) -> %s%s, but followed by %s -> %s%s", vrt.Q(H), base.key(), c09Err(base), c09ContNames[i+1], v.key(), c09Err(v)))
 		break
 	}
 	// (2) open connection, every delivery: a parser that holds the complete head must decide without another Read
@@ -290,10 +298,10 @@ func c09CheckHead(r *vrt.R, h *c09Head, st *c09Stats) {
 		ov, waited := c09ReadOpen(h.resp, chunks)
 		evals++
 		if waited {
-			r.Violation(h.shape()+":waits-for-more-input", fmt.Sprintf("Header.Read on an open connection that delivered the complete head %s (%s) issued another Read instead of deciding (then: %s%s)", vrt.Q(H), dnames[d], ov.key(), c09Err(ov)), art)
+			viol(h.shape()+":waits-for-more-input", fmt.Sprintf("Header.Read on an open connection that delivered the complete head %s (%s) issued another Read instead of deciding (then: %s%s)", vrt.Q(H), dnames[d], ov.key(), c09Err(ov)))
 			break
 		} else if ov.key() != base.key() && !(ov.accept == base.accept && ov.fields == base.fields) {
-			r.Violation(h.shape()+":open-vs-closed-verdict-differs", fmt.Sprintf("Header.Read(%s): on a closed stream %s, on an open connection (%s) %s", vrt.Q(H), base.key(), dnames[d], ov.key()), art)
+			viol(h.shape()+":open-vs-closed-verdict-differs", fmt.Sprintf("Header.Read(%s): on a closed stream %s, on an open connection (%s) %s", vrt.Q(H), base.key(), dnames[d], ov.key()))
 			break
 		}
 	}
@@ -306,18 +314,18 @@ func c09CheckHead(r *vrt.R, h *c09Head, st *c09Stats) {
 			st.srvDispatched++
 		}
 		if swaited {
-			r.Violation(h.shape()+":waits-for-more-input", fmt.Sprintf("Server.ServeConn on an open connection that delivered the complete head %s issued another Read before answering", vrt.Q(H)), art)
+			viol(h.shape()+":waits-for-more-input", fmt.Sprintf("Server.ServeConn on an open connection that delivered the complete head %s issued another Read before answering", vrt.Q(H)))
 		}
 		for d, chunks := range dchunks[1:] {
 			sv, w := c09Serve(chunks...)
 			st.srvRuns++
 			evals++
 			if w && !swaited {
-				r.Violation(h.shape()+":waits-for-more-input", fmt.Sprintf("Server.ServeConn on an open connection that delivered the complete head %s (%s) issued another Read before answering", vrt.Q(H), dnames[d+1]), art)
+				viol(h.shape()+":waits-for-more-input", fmt.Sprintf("Server.ServeConn on an open connection that delivered the complete head %s (%s) issued another Read before answering", vrt.Q(H), dnames[d+1]))
 				break
 			}
 			if sv != sbase {
-				r.Violation(h.shape()+":verdict-depends-on-delivery", fmt.Sprintf("Server.ServeConn(%s) delivered whole -> %s, delivered %s -> %s", vrt.Q(H), sbase, dnames[d+1], sv), art)
+				viol(h.shape()+":verdict-depends-on-delivery", fmt.Sprintf("Server.ServeConn(%s) delivered whole -> %s, delivered %s -> %s", vrt.Q(H), sbase, dnames[d+1], sv))
 				break
 			}
 		}
@@ -326,8 +334,47 @@ func c09CheckHead(r *vrt.R, h *c09Head, st *c09Stats) {
 			st.srvRuns++
 			evals++
 			if sv != sbase {
-				r.Violation(h.shape()+":verdict-depends-on-continuation", fmt.Sprintf("Server.ServeConn(%s + nothing) -> %s, but followed by %s -> %s", vrt.Q(H), sbase, c09ContNames[i+1], sv), art)
+				viol(h.shape()+":verdict-depends-on-continuation", fmt.Sprintf("Server.ServeConn(%s + nothing) -> %s, but followed by %s -> %s", vrt.Q(H), sbase, c09ContNames[i+1], sv))
 				break
+			}
+		}
+	}
+	// (4) H+S on an open connection, split inside H: the read that carries the last byte of the head also carries
+	// the first bytes of what follows. Skipped for heads that already failed above (same defect, same sig).
+	if !failed {
+		srvBase := ""
+		if !h.resp && h.bodyless {
+			srvBase, _ = c09Serve(H)
+		}
+	outer:
+		for i, s := range conts[1:] {
+			HS := append(append([]byte{}, H...), s...)
+			for _, k := range []int{len(H) - 1, len(H) - 2, len(H) / 2} {
+				chunks := vnet.Split(HS, k)
+				how := fmt.Sprintf("followed by %s, split at offset %d of the head's %d bytes", c09ContNames[i+1], k, len(H))
+				ov, waited := c09ReadOpen(h.resp, chunks)
+				evals++
+				if waited {
+					viol(h.shape()+":waits-for-more-input", fmt.Sprintf("Header.Read on an open connection that delivered the complete head %s (%s) issued another Read instead of deciding (then: %s%s)", vrt.Q(H), how, ov.key(), c09Err(ov)))
+					break outer
+				}
+				if ov.key() != base.key() {
+					viol(h.shape()+":verdict-depends-on-continuation", fmt.Sprintf("Header.Read(%s): from a closed stream holding only the head %s, from an open connection (%s) %s", vrt.Q(H), base.key(), how, ov.key()))
+					break outer
+				}
+				if srvBase != "" {
+					sv, w := c09Serve(chunks...)
+					st.srvRuns++
+					evals++
+					if w {
+						viol(h.shape()+":waits-for-more-input", fmt.Sprintf("Server.ServeConn on an open connection that delivered the complete head %s (%s) issued another Read before answering", vrt.Q(H), how))
+						break outer
+					}
+					if sv != srvBase {
+						viol(h.shape()+":verdict-depends-on-continuation", fmt.Sprintf("Server.ServeConn(%s alone) -> %s, but %s -> %s", vrt.Q(H), srvBase, how, sv))
+						break outer
+					}
+				}
 			}
 		}
 	}
